@@ -1038,6 +1038,20 @@ def lambda_location(run, model, rule="C07.text"):
                             sources.append(("keyword" if named else "keyword-unfiltered", d))
                             if named:
                                 filtered_generator = True
+    # ... or handed straight to the inspection object that is returned (``return Inspection(atok=..., node=call.args[0])``)
+    class _Src:
+        def __init__(self, node):
+            self.node = node
+
+    for n in flow.cfg.nodes:
+        if n.kind != "return" or not isinstance(n.ast, ast.Call):
+            continue
+        for e in list(n.ast.args) + [kw.value for kw in n.ast.keywords]:
+            t = strip_sites(flow.term(e, n))
+            if t == ("idx", ("attr", CALL, "args"), ("const", "0")) and not isinstance(e, ast.Name):
+                sources.append(("positional", _Src(n)))
+            elif t[0] == "attr" and t[2] == "value" and t[1][0] == "elem" and t[1][1] == ("attr", CALL, "keywords") and not isinstance(e, ast.Name):
+                sources.append(("keyword", _Src(n)))
     kinds = sorted(k for k, _ in sources)
     bad = None
     if kinds != ["keyword", "positional"]:
